@@ -4,6 +4,7 @@ package main
 // and are therefore evaluated by each of them.
 
 import (
+	"go/token"
 	"go/types"
 	"golang.org/x/tools/go/ssa"
 	"strings"
@@ -1706,4 +1707,125 @@ func ruleReadyKeyedByCtx(e *Engine, r *Report) {
 			"addReady writes the read index into a batch selected by iterating the table, not the batch of the confirmed ctx: batches that were never confirmed are released with it")
 	})
 	r.floor("WMW-ready-keyed", n, 1)
+}
+
+// ruleStopBeforeTerminate (C12): a table whose acceptance is decided by an
+// input queue (proposals, read-index requests) closes that queue before it
+// terminates the requests it holds: once a request was terminated no new
+// request may be accepted into the same table, or it is registered after
+// the sweep and never gets a result. In the table's close (or in every
+// caller, before the call) the queue's close() precedes each terminated().
+func ruleStopBeforeTerminate(e *Engine, r *Report) {
+	termFn := r.need("(*dragonboat.RequestState).terminated")
+	if termFn == nil {
+		return
+	}
+	tables := []struct{ closeFn, queueClose string }{
+		{"(*dragonboat.proposalShard).close", "(*dragonboat.entryQueue).close"},
+		{"(*dragonboat.pendingReadIndex).close", "(*dragonboat.readIndexQueue).close"},
+	}
+	n := 0
+	for _, t := range tables {
+		cf := r.need(t.closeFn)
+		qc := r.need(t.queueClose)
+		if cf == nil || qc == nil {
+			continue
+		}
+		isQC := func(in ssa.Instruction) bool {
+			c, ok := in.(*ssa.Call)
+			return ok && e.CallsTo(c, qc)
+		}
+		// the queue pointer being nil (tests build tables without a queue) exempts
+		qt := qc.Signature.Recv().Type()
+		nilQueue := Req{Name: "the table has no queue", Has: func(fs []Fact) bool {
+			for _, f := range fs {
+				b, ok := f.V.(*ssa.BinOp)
+				if !ok || !(isNilConst(b.X) || isNilConst(b.Y)) {
+					continue
+				}
+				x := b.X
+				if isNilConst(b.X) {
+					x = b.Y
+				}
+				isNil := (b.Op == token.EQL) == f.Pol
+				if isNil && types.Identical(x.Type(), qt) {
+					return true
+				}
+			}
+			return false
+		}}
+		var preceded func(site ssa.Instruction, depth int) bool
+		preceded = func(site ssa.Instruction, depth int) bool {
+			fn := site.Parent()
+			res := e.pathUnless(fn, nil, func(in ssa.Instruction) bool { return in == site }, isQC, nilQueue)
+			if !res.Found {
+				return true
+			}
+			if depth == 0 {
+				return false
+			}
+			cnt := 0
+			for _, cs := range e.CallerSites(fn) {
+				if p := fnPkg(cs.Parent()); p == nil || !scopePkg(p.Path()) || !e.IsLive(outermostFn(cs.Parent())) {
+					continue
+				}
+				cnt++
+				if !preceded(cs.(ssa.Instruction), depth-1) {
+					return false
+				}
+			}
+			return cnt > 0
+		}
+		for _, s := range e.SitesIn(cf, termFn) {
+			n++
+			r.check(preceded(s.(ssa.Instruction), 2), "MPT-stop-before-terminate", "terminated() in "+fname(cf)+" #"+itoa(n)+" comes after the input queue was closed", e.ipos(s),
+				"no request can be accepted after the sweep that terminates the pending ones",
+				"pending requests are terminated while the table's input queue still accepts: a request accepted after the sweep is registered in a closed table and never receives a result")
+		}
+	}
+	r.floor("MPT-stop-before-terminate", n, 2)
+}
+
+func reqAll(name string, parts ...Req) Req {
+	return Req{Name: name, Has: func(fs []Fact) bool {
+		for _, p := range parts {
+			if !p.Has(fs) {
+				return false
+			}
+		}
+		return true
+	}}
+}
+
+// ruleSelfRemoved (C18, C03): "am I still a member" is answered per role: a
+// replica running as non-voting is present only if it is in nonVotings, a
+// witness only if in witnesses, any other state only if in remotes. A
+// role-agnostic lookup lets a replica that runs the follower state machine
+// but is listed as non-voting/witness pass the election gate.
+func ruleSelfRemoved(e *Engine, r *Report) {
+	fn := r.need(raftT + "selfRemoved")
+	isNV := r.need(raftT + "isNonVoting")
+	isW := r.need(raftT + "isWitness")
+	remotes := r.needField("internal/raft", "raft", "remotes")
+	nonVotings := r.needField("internal/raft", "raft", "nonVotings")
+	witnesses := r.needField("internal/raft", "raft", "witnesses")
+	replicaID := r.needField("internal/raft", "raft", "replicaID")
+	if fn == nil || isNV == nil || isW == nil || remotes == nil || nonVotings == nil || witnesses == nil || replicaID == nil {
+		return
+	}
+	inMap := func(m *types.Var) VM {
+		return func(v ssa.Value) bool {
+			ex, ok := v.(*ssa.Extract)
+			if !ok || ex.Index != 1 {
+				return false
+			}
+			lk, ok := ex.Tuple.(*ssa.Lookup)
+			return ok && fieldV(m)(lk.X) && fieldV(replicaID)(lk.Index)
+		}
+	}
+	r.returnsOnlyUnder("GD-self-removed", fname(fn), fn, 0, false, nil,
+		reqAny("present in the member map of its own role",
+			reqAll("", reqBool("", e.callV(isNV), true), reqBool("", inMap(nonVotings), true)),
+			reqAll("", reqBool("", e.callV(isW), true), reqBool("", inMap(witnesses), true)),
+			reqAll("", reqBool("", e.callV(isNV), false), reqBool("", e.callV(isW), false), reqBool("", inMap(remotes), true))))
 }
